@@ -571,6 +571,13 @@ class ProxyKmipClient(object):
                         index=0
                     )
                     object_attributes.append(attribute)
+        if getattr(managed_object, 'sensitive', False):
+            if self.kmip_version >= enums.KMIPVersion.KMIP_1_4:
+                sensitive_attribute = self.attribute_factory.create_attribute(
+                    enums.AttributeType.SENSITIVE,
+                    True
+                )
+                object_attributes.append(sensitive_attribute)
         template = cobjects.TemplateAttribute(attributes=object_attributes)
         object_type = managed_object.object_type
         # Register the managed object and handle the results
